@@ -127,7 +127,7 @@ class NodeValidator():
         #print()
         #print(f"validate_node {node} {path} {roles} {problems}")
 
-        if not node or not isinstance(node, dict):
+        if not isinstance(node, dict):
             return
 
         # May have more roles based on field presence/value etc
